@@ -87,6 +87,8 @@ instance (E : Env) : Decidable (NoDefinedOnAttr E) := by unfold NoDefinedOnAttr;
 section wf
 variable (E : Env) (fa : Option Nat)
 @[simp] theorem wf_tpl? (name : Bytes) : (E.withFail fa).tpl? name = E.tpl? name := rfl
+@[simp] theorem wf_resolveTpl (name : Bytes) : resolveTpl (E.withFail fa) name = resolveTpl E name := rfl
+@[simp] theorem wf_entry : (E.withFail fa).entry = E.entry := rfl
 @[simp] theorem wf_F : (E.withFail fa).F = E.F := rfl
 @[simp] theorem wf_hasPolicy : (E.withFail fa).hasPolicy = E.hasPolicy := rfl
 @[simp] theorem wf_allowedFilters : (E.withFail fa).allowedFilters = E.allowedFilters := rfl
@@ -469,7 +471,7 @@ theorem renderNode_agJ {go0 gon : Go} (hgo : GoAgree n go0 gon) (tpl : Bytes) :
   all_goals intros
   all_goals try simp only [Node.noDefAttr, Node.noDefAttrs, Bool.and_eq_true] at *
   all_goals split_hyp_ands
-  all_goals try simp only [renderNode, renderNodes, wf_tpl?, wf_F, wf_hasPolicy]
+  all_goals try simp only [renderNode, renderNodes, wf_resolveTpl, wf_F, wf_hasPolicy]
   all_goals ag (first | (jderiv; done) | (apply noDef_dedupLast; assumption))
 
 theorem renderNodes_agJ {go0 gon : Go} (hgo : GoAgree n go0 gon) (tpl ns st)
@@ -814,17 +816,15 @@ theorem C17_unresolved_macro_node (E : Env) (go : Go) (tpl : Bytes) (te : Expr) 
   obtain ⟨name, _, h⟩ := rt_bind_ok h
   split at h
   · cases h
-  · split at h
-    · cases h
-    · obtain ⟨⟨_, st2⟩, _, h⟩ := rt_bind_ok h
-      obtain ⟨ms, hms, _⟩ := rt_bind_ok h
-      refine ⟨st2, fun p hp => ?_⟩
-      cases hg : getKV p.1 st2.ctx.macros with
-      | some _ => rfl
-      | none =>
-        dsimp only at hms
-        rw [C17_unresolved_macro st2.ctx.macros names _ ⟨p, hp, hg⟩] at hms
-        cases hms
+  · obtain ⟨⟨_, st2⟩, _, h⟩ := rt_bind_ok h
+    obtain ⟨ms, hms, _⟩ := rt_bind_ok h
+    refine ⟨st2, fun p hp => ?_⟩
+    cases hg : getKV p.1 st2.ctx.macros with
+    | some _ => rfl
+    | none =>
+      dsimp only at hms
+      rw [C17_unresolved_macro st2.ctx.macros names _ ⟨p, hp, hg⟩] at hms
+      cases hms
 
 /-- a template name that the loader does not know: `Engine.Render`, `extends`, `import`, `from` and an
     `include` without `ignore missing` all return the not-found error (stated for literal names) -/
@@ -838,10 +838,10 @@ theorem C17_unresolved_template (E : Env) (go : Go) (tpl name : Bytes) (st : St)
         .error (.error .notFound [] "template not found")) := by
   refine ⟨?_, ?_, ?_, ?_, ?_⟩
   · intro vars; simp [renderTop, hm]
-  · simp [renderNode, evalX, toStr, hrel, hm, bind, Except.bind, pure, Except.pure]
-  · intro alias; simp [renderNode, evalX, toStr, hrel, hm, bind, Except.bind, pure, Except.pure]
-  · intro names; simp [renderNode, evalX, toStr, hrel, hm, bind, Except.bind, pure, Except.pure]
-  · intro ns es only sb; simp [renderNode, evalX, toStr, hrel, hm, bind, Except.bind, pure, Except.pure]
+  · simp [renderNode, evalX, toStr, resolveTpl_of_not_relative hrel, hm, bind, Except.bind, pure, Except.pure]
+  · intro alias; simp [renderNode, evalX, toStr, resolveTpl_of_not_relative hrel, hm, bind, Except.bind, pure, Except.pure]
+  · intro names; simp [renderNode, evalX, toStr, resolveTpl_of_not_relative hrel, hm, bind, Except.bind, pure, Except.pure]
+  · intro ns es only sb; simp [renderNode, evalX, toStr, resolveTpl_of_not_relative hrel, hm, bind, Except.bind, pure, Except.pure]
 
 /-- **C17_unresolved**: the five kinds of unresolvable names, each an error -/
 theorem C17_unresolved :
@@ -882,7 +882,7 @@ theorem C17_tolerances (E : Env) (go : Go) (tpl : Bytes) (st : St) :
     simp [ho kvs rfl]
   · simp [printVal, toStr, bind, Except.bind, pure, Except.pure]
   · intro name ns es only sb hrel hm
-    simp [renderNode, evalX, toStr, hrel, hm, bind, Except.bind, pure, Except.pure]
+    simp [renderNode, evalX, toStr, resolveTpl_of_not_relative hrel, hm, bind, Except.bind, pure, Except.pure]
 
 /-- a variable that is in no scope of the context reads as null (what `getVar` returns for it) -/
 theorem C17_undefined_variable_is_null (c : Ctx) (n : Bytes) (h1 : getKV n c.vars = none)
@@ -927,7 +927,7 @@ def expectedDropSites : List (String × String × Nat × String × String) := [
   -- parser never produces); an undefined variable is (nil, nil): the documented tolerance
   ("ForNode.Render", "blank", 0, "RenderContext.GetVariable", "dropped"),
   -- relative-path fallback: a not-found for the path resolved against the current template is retried
-  -- with the name as written, and the retry's error is returned (relative names are outside the model)
+  -- with the name as written, and the retry's error is returned (the model's `resolveTpl`: resolved name, then the written one)
   ("ExtendsNode.Render", "check", 1, "Engine.Load", "overwritten"),
   ("IncludeNode.Render", "check", 1, "Engine.Load", "overwritten"),
   -- renderVariableString: interpolation of a literal `{{ … }}` left inside macro-body TEXT (not a print
